@@ -2,7 +2,7 @@
    bool, option, unit, list, prod, sumbool, sumor and andb/orb are mapped to OCaml's own;
    numbers stay positive/N/Z). Run from the directory that should receive model.ml. *)
 From Coq Require Extraction ExtrOcamlBasic.
-From Chess Require Import Model.Board Model.Game Model.Attack Model.MoveGen Model.Fen Model.Text.
+From Chess Require Import Model.Board Model.Game Model.Attack Model.MoveGen Model.Fen Model.Text Model.Search.
 
 Extraction Language OCaml.
 Set Extraction KeepSingleton.
@@ -17,4 +17,5 @@ Extraction "model.ml"
   piece_score key_piece kind_index piece_index material_value
   KEY_BLACK_TO_MOVE KEY_EMPTY_PLACE KEYS_STATE KEYS_PIECE ENDGAME_THRESHOLD
   QUEEN_SCORES ROOK_SCORES BISHOP_SCORES KNIGHT_SCORES PAWN_SCORES KING_SCORES_MIDDLE KING_SCORES_END
-  char_of_piece PGN_LETTER glyph all_kinds.
+  char_of_piece PGN_LETTER glyph all_kinds
+  driver root node fresh_state mkS tempty tlen tfind quiescence depth1 history_bonus KILLER_SLOTS HISTORY_SLOTS.
